@@ -7,7 +7,10 @@ that `encap`, `encap_frag` and `encap_ext` write (closed forms of Lemmas/EncapLa
 * `parse_complete`, `parse_first`, `parse_inter`, `parse_end`: `Spec.parse` on the four packet
   layouts, for arbitrary label bytes and body (so the same lemmas serve packets with extensions);
 * `emitted_prefix`: a result buffer `pkt ++ buf.drop n` has the old length, starts with `pkt` and
-  is unchanged from offset `n` on.
+  is unchanged from offset `n` on;
+* `Emitted buf buf' n p` ("the call wrote the packet `p` of `n` bytes at the start of `buf`") and
+  `encap_wire`, `encapFrag_wire`, `encapExt_wire`: every `Ok` result of the three calls is
+  `Emitted` with a packet whose fields are given in terms of the arguments (Props/C06.lean).
 
 Core Lean only.
 -/
@@ -274,7 +277,7 @@ theorem emitted_prefix {buf pkt : Bytes} {n : Nat} (hp : pkt.length = n) (hn : n
 truncations to the Rust types, which Props/C06.lean removes under the type bounds.) -/
 
 /-- the length an `EncapStatus` reports to the caller -/
-def EncStatus.len : EncStatus → Nat
+def EncStatus.wireLen : EncStatus → Nat
   | .completed n => n
   | .fragmented n _ => n
 
@@ -296,7 +299,7 @@ theorem emitted_of {buf pkt : Bytes} {n : Nat} {p : WirePkt} (hp : pkt.length = 
 theorem encap_wire (crc : CrcFn) (es : Enc) (pdu : Bytes) (fid pt : Nat) (label : Label)
     (buf : Bytes) (st : EncStatus)
     (h : (encap crc es pdu fid pt label buf).res = .ok st) :
-    ∃ p, Emitted buf (encap crc es pdu fid pt label buf).buf st.len p ∧
+    ∃ p, Emitted buf (encap crc es pdu fid pt label buf).buf st.wireLen p ∧
       p.startBit = true ∧
       p.labelType = (checkLabelReUse es label).1.type.code ∧
       p.label = (checkLabelReUse es label).1.bytes ∧
@@ -322,7 +325,7 @@ theorem encap_wire (crc : CrcFn) (es : Enc) (pdu : Bytes) (fid pt : Nat) (label 
   · rw [ho] at h; cases h
   · rw [ho] at h ⊢
     cases h
-    dsimp only [EncStatus.len]
+    dsimp only [EncStatus.wireLen]
     have hpar := parse_complete lbl.type (pdu.length + lbl.len + PROTOCOL_LEN) pt lbl.bytes pdu hlab
       (by rw [Label.bytes_length]; gse_omega) hf.2
     have hB : be16 (genHeader .complete lbl.type (pdu.length + lbl.len + PROTOCOL_LEN)) ++ be16 pt
@@ -343,7 +346,7 @@ theorem encap_wire (crc : CrcFn) (es : Enc) (pdu : Bytes) (fid pt : Nat) (label 
   · rw [ho] at h; cases h
   · rw [ho] at h ⊢
     cases h
-    dsimp only [EncStatus.len]
+    dsimp only [EncStatus.wireLen]
     have hn := firstPayloadLen_eq lbl.len buf.length
     generalize firstPayloadLen lbl.len buf.length = n at hn hlt ⊢
     have hbody : (pdu.take n).length = n := by rw [List.length_take]; omega
@@ -375,7 +378,7 @@ theorem encap_wire (crc : CrcFn) (es : Enc) (pdu : Bytes) (fid pt : Nat) (label 
 
 theorem encapFrag_wire (pdu : Bytes) (ctx : FragCtx) (buf : Bytes) (st : EncStatus)
     (h : (encapFrag pdu ctx buf).1 = .ok st) :
-    ∃ p, Emitted buf (encapFrag pdu ctx buf).2 st.len p ∧
+    ∃ p, Emitted buf (encapFrag pdu ctx buf).2 st.wireLen p ∧
       p.startBit = false ∧
       p.labelType = LabelType.reuse.code ∧ p.label = [] ∧
       p.fragId = some (ctx.fragId % 256) ∧ p.totalLen = none ∧ p.typeField = none ∧
@@ -392,7 +395,7 @@ theorem encapFrag_wire (pdu : Bytes) (ctx : FragCtx) (buf : Bytes) (st : EncStat
   · rw [ho] at h; cases h
   · rw [ho] at h ⊢
     cases h
-    dsimp only [EncStatus.len]
+    dsimp only [EncStatus.wireLen]
     have hbody : (pdu.drop ctx.pos).length = pdu.length - ctx.pos := List.length_drop
     have hpar := parse_end (FRAG_ID_LEN + (pdu.length - ctx.pos) + CRC_LEN) ctx.fragId ctx.crc
       (pdu.drop ctx.pos) (by rw [hbody]; gse_omega) hf.2
@@ -413,7 +416,7 @@ theorem encapFrag_wire (pdu : Bytes) (ctx : FragCtx) (buf : Bytes) (st : EncStat
     · simp [LabelType.code]
   · rw [ho] at h ⊢
     cases h
-    dsimp only [EncStatus.len]
+    dsimp only [EncStatus.wireLen]
     have hn := interPayloadLen_eq (pdu.length - ctx.pos) buf.length
     generalize interPayloadLen (pdu.length - ctx.pos) buf.length = n at hn hn1 hnr ⊢
     have hbody : ((pdu.drop ctx.pos).take n).length = n := by
@@ -462,7 +465,7 @@ theorem extMiddle_split {exts : List Ext} {lastExt : Ext} (pt : Nat) (lbl : Labe
 theorem encapExt_wire (crc : CrcFn) (es : Enc) (pdu : Bytes) (fid pt : Nat) (label : Label)
     (buf : Bytes) (exts : List Ext) (st : EncStatus) (hwf : ∀ e ∈ exts, e.len = PROTOCOL_LEN + e.data.length)
     (h : (encapExt crc es pdu fid pt label buf exts).res = .ok st) :
-    ∃ p, Emitted buf (encapExt crc es pdu fid pt label buf exts).buf st.len p ∧
+    ∃ p, Emitted buf (encapExt crc es pdu fid pt label buf exts).buf st.wireLen p ∧
       p.startBit = true ∧
       p.labelType = (checkLabelReUse es label).1.type.code ∧
       p.label = (checkLabelReUse es label).1.bytes ∧
@@ -494,7 +497,7 @@ theorem encapExt_wire (crc : CrcFn) (es : Enc) (pdu : Bytes) (fid pt : Nat) (lab
   · obtain ⟨e0, hhead, hmid, hxb⟩ := extMiddle_split pt lbl hwf hlast
     rw [ho] at h ⊢
     cases h
-    dsimp only [EncStatus.len]
+    dsimp only [EncStatus.wireLen]
     generalize extLen pt exts = x at hf hxb ⊢
     have hpar := parse_complete lbl.type (pdu.length + lbl.len + PROTOCOL_LEN + x) e0.id lbl.bytes
       (extBytes pt exts ++ pdu) hlab
@@ -520,7 +523,7 @@ theorem encapExt_wire (crc : CrcFn) (es : Enc) (pdu : Bytes) (fid pt : Nat) (lab
   · obtain ⟨e0, hhead, hmid, hxb⟩ := extMiddle_split pt lbl hwf hlast
     rw [ho] at h ⊢
     cases h
-    dsimp only [EncStatus.len]
+    dsimp only [EncStatus.wireLen]
     generalize extLen pt exts = x at hf hb ht hlt hxb ⊢
     have hn := firstPayloadLen_eq (lbl.len + x) buf.length
     generalize firstPayloadLen (lbl.len + x) buf.length = n at hn hlt ⊢
